@@ -32,7 +32,16 @@ def main():
     except core.Broken as e:
         print('check broken (infrastructure): %s' % e, file=sys.stderr)
         return 2
-    except Exception:
+    except Exception as e:
+        if type(e).__name__ == 'InputModified':
+            # raised by the harness' input guards (the library modified an input-only argument in place) at a place where no
+            # oracle was wrapping the call: a violation with the guard's message, not a failure of the check itself
+            ctx.violation('input', str(e), {'kind': 'input', 'call': '(input guard)', 'args': {'traceback': traceback.format_exc()[-1500:]}, 'failure': str(e)})
+            return ctx.finish('proof', explanation='run aborted by an input guard: ' + str(e), rule='(aborted)')
+        traceback.print_exc()
+        print('check broken (infrastructure): unexpected exception', file=sys.stderr)
+        return 2
+    except BaseException:
         traceback.print_exc()
         print('check broken (infrastructure): unexpected exception', file=sys.stderr)
         return 2
